@@ -212,6 +212,10 @@ func cmdCheck(args []string) int {
 	if err := sx.GenerateSupport(harnessDir, genDir, all); err != nil {
 		fatal(err)
 	}
+	if err := genTypes(repoDir, harnessDir, genDir); err != nil {
+		fmt.Println("HARNESS-ERROR: type-directed support could not be generated:", err)
+		return 2
+	}
 	pkgSet := map[string]bool{}
 	for _, o := range obls {
 		pkgSet[o.Pkg] = true
@@ -564,6 +568,19 @@ func nativeReplay(cexPath, genDir string) (bool, string) {
 		Msg     string `json:"msg"`
 	}
 	json.Unmarshal(b, &doc)
+	if genDir == "" {
+		genDir = filepath.Join(verifDir, "out", "gen-replay")
+		all, err := sx.Discover(filepath.Join(verifDir, "harness"))
+		if err != nil {
+			return false, err.Error()
+		}
+		if err := sx.GenerateSupport(filepath.Join(verifDir, "harness"), genDir, all); err != nil {
+			return false, err.Error()
+		}
+		if err := genTypes(repoDir, filepath.Join(verifDir, "harness"), genDir); err != nil {
+			return false, err.Error()
+		}
+	}
 	if nativeHooks == nil && doc.Use != "" {
 		// stand-alone replay: hooks need the loaded program
 		P, err := sx.Load(repoDir, []string{filepath.Join(verifDir, "harness"), genDir}, []string{doc.Package})
@@ -573,16 +590,6 @@ func nativeReplay(cexPath, genDir string) (bool, string) {
 		all, _ := sx.Discover(filepath.Join(verifDir, "harness"))
 		nativeHooks, err = P.GenerateNativeHooks(repoDir, filepath.Join(filepath.Dir(cexPath), "nativehooks"), usedSetsOf(all))
 		if err != nil {
-			return false, err.Error()
-		}
-	}
-	if genDir == "" {
-		genDir = filepath.Join(verifDir, "out", "gen-replay")
-		all, err := sx.Discover(filepath.Join(verifDir, "harness"))
-		if err != nil {
-			return false, err.Error()
-		}
-		if err := sx.GenerateSupport(filepath.Join(verifDir, "harness"), genDir, all); err != nil {
 			return false, err.Error()
 		}
 	}
@@ -723,4 +730,16 @@ func cmdSelftest(args []string) int {
 	}
 	fmt.Println("selftest ok")
 	return 0
+}
+
+
+var genNotes []string
+
+func genTypes(repoDir, harnessDir, genDir string) error {
+	req, err := sx.DiscoverGen(harnessDir)
+	if err != nil {
+		return err
+	}
+	genNotes, err = sx.GenerateTypeSupport(repoDir, harnessDir, genDir, req)
+	return err
 }
